@@ -330,7 +330,7 @@ def r17a(P, R):
         R.violated("R17-a", key, "%s iterates a hash container (%s; %s) and the order reaches %s: output can differ between processes with "
                    "different hash seeds" % (f.path, source, what, ("an order-dependent sink (%s)" % reason) if verdict == "sensitive" else
                                              ("a sink the classifier cannot prove order-free (%s)" % reason)), loc=f.loc(), detail={"verdict": verdict})
-    R.floor("R17-a", "hash iteration sites", n, 8)
+    R.floor("R17-a", "hash iteration sites", n, 4)
 
 
 NONDET = ("std::time::", "std::thread::spawn", "std::thread::current", "std::thread::scope", "std::thread::Builder",
